@@ -11,6 +11,8 @@
 //	-mode api    real api.SSHSign / api.SSHRenew / api.SSHRekey handlers with an identity CSR / an identity
 //	             certificate as TLS client certificate and an aged SSHPOP certificate; and the migration of
 //	             ca.json provisioners into the admin database (enableAdmin) followed by a reload
+//	-mode chains go/ast over the provisioner and authority sources: option lists per provisioner, cast kinds,
+//	             order of application — compared with the Lean tables the chain theorems are about
 //	-mode prop   oracle: the property predicate itself evaluated on the implementation's output
 //	             (third column = expected "ok")
 package main
@@ -86,7 +88,7 @@ func main() {
 	n := flag.Int("n", 2000, "number of generated cases")
 	out := flag.String("out", "", "output file (input<TAB>impl)")
 	replay := flag.String("replay", "", "file of model input lines (case=… field) to re-run instead of generating")
-	flag.StringVar(&mode, "mode", "unit", "unit | e2e | acme | api | prop")
+	flag.StringVar(&mode, "mode", "unit", "unit | e2e | acme | api | chains | prop")
 	flag.Parse()
 	o, err := c.NewOut(*out)
 	if err != nil {
@@ -120,6 +122,10 @@ func main() {
 				emit(o, &k)
 			}
 		}
+		return
+	}
+	if mode == "chains" {
+		runChains(o)
 		return
 	}
 	for _, k := range corner(mode) {
